@@ -1,11 +1,23 @@
 """C02 — simulated trajectories obey mass, time, distance and route bookkeeping.
 
-R1  paired decrement: on the flight path a point's fuel_mass / aircraft_mass are
-    written only by the first-point initialisation and by `-=` pairs in one
-    block with the same right-hand side.
-R2  clamp dominance: in the level-change phase the subtracted segment fuel is,
-    on every path, last written by the non-negativity clamp or by a
-    definition the clamp test dominates.
+R3 is a dataflow rule on the CFG.  The other rules are decided on the values
+that flow, with the symbolic execution engine of c06.py ("Value flow"): each
+phase method of the builder (fly_<phase> for the members of FlightPhase) is
+executed with the builder's own helpers inlined; the stepping loop of a phase is
+summarised by one symbolic iteration in which the point's fields read back as the
+value the previous step left (`_cur(point.field)`); a *step* is one way through
+that iteration.  Helper extraction, hoisting, renaming, reordering of
+independent statements, `x -= a` vs `x = x - a`, for vs while do not change what
+the rules see.
+
+R1  paired decrement: on every step the total taken off fuel_mass and the total
+    taken off aircraft_mass of the same point are the same amount (algebraic
+    equality), both are written only by subtracting from their previous value,
+    and a phase that is not the first continues from the last stored point
+    (make_point(-1)).
+R2  clamp: in the level-change phases the amount subtracted on a step is zero,
+    max(., 0), or the step's path condition excludes a negative amount (the path
+    condition is evaluated with the amount at -1).
 R3  buffer-view discipline of the growable container (forward must-dataflow on
     the CFG of every method of Container and its subclasses).  A value read
     from the field table (`self._data[k]`, `self._data.get(k)`, a loop over
@@ -21,30 +33,49 @@ R3  buffer-view discipline of the growable container (forward must-dataflow on
     orientation, chained, `in range(_size)`, loop over `range(_size)`; the
     fact dies when the index or `_size` is written).  It is not returned,
     stored elsewhere, iterated, compared element-wise or passed on raw.
-    Growth raises the capacity once and stores every resized array back into
-    its slot; append has room (size < capacity on the path, or just grown)
-    when slot `_size` is written and counts the point afterwards.
-R4  position <-> distance pairing: positions written to a point come from
-    ground_track.step(pt.ground_distance, d) and the same d is added to
-    pt.ground_distance in that block; longitude<-longitude, latitude<-latitude.
-    The forward-geodesic leg coherence rule of the ground track (C15-R5) is
-    part of this clause.
-R5  first point: starting mass / fuel come from the same context fields that
-    fly() copies into the returned trajectory's metadata.
-R6  infeasible schedules raise before the context is completed; the 3000 ft
-    offsets and their ceiling fall-backs have the documented shape.
-R7  accumulators: flight_time and ground_distance start at 0 and are only
-    ever added to.
-R9  resampling interpolates every per-point field against the trajectory's own
-    flight-time view (x = new times, xp = own times, fp = the field view,
-    NaN outside), copies per-trajectory fields, sizes the result by the new
-    time vector.
+    Growth (value flow): the capacity is raised once; every np.resize takes an
+    array out of the field table under a key, resizes it to the *raised*
+    capacity and stores it back under the same key.  Append has room (size <
+    capacity on the path, or just grown) when slot `_size` is written and counts
+    the point afterwards.
+R4  position <-> distance pairing: on every step the longitude / latitude /
+    azimuth written to the point are those components of one track point,
+    obtained by ground_track.step(a, d) with a the point's ground distance on
+    entry and a + d equal (algebraically) to the ground distance the step
+    leaves, or by location(x) with x equal to that distance and a path that
+    excludes a negative advance; ground_track.step itself refuses a negative
+    step (its returning paths evaluated with the step at -1).  The first point
+    is the start of the track.  The forward-geodesic leg coherence rule of the
+    ground track (C15-R5) is part of this clause.
+R5  first point: the point the climb loop advances is initialised with the
+    context's starting_mass / total_fuel_mass, the same fields fly() copies
+    into the returned trajectory's metadata (through whatever helper).
+R6  altitude schedule and refusals (scenario evaluation): the paths of the
+    context constructor are evaluated on eleven explicit missions (origin /
+    destination elevation / ceiling covering every branch of the documented
+    schedule); the path taken must give the documented climb start, cruise
+    level, descent start and end, start the trajectory at the climb start, and
+    refuse -- before the base context is initialised -- exactly the missions
+    whose climb start lies above the cruise level or whose descent would end
+    above it.
+R7  accumulators: flight_time and ground_distance start at 0 and on every step
+    become their previous value plus the step's amounts.
+R8  altitude schedule of a phase (algebra): the altitude written in the stepping
+    loop, as a function of the loop index, is the phase's own start altitude at
+    index 0 and its own end altitude at index n-1; the step with index n-1
+    appends its point and flies no further segment; cruise altitude is set once
+    to the cruise level; each phase evaluates the performance model under its
+    own flight rule and marks its points with its own phase.
+R9  resampling (value flow over Trajectory.interpolate_time, evaluated per kind
+    of field from the dimension tests on the path): a per-point field of the
+    result is np.interp(x = the new times as given, xp = the stored-points view
+    of this trajectory's own flight_time, fp = the stored-points view of the same
+    field, NaN outside); a per-point species field is that per species of the
+    same field; other fields are deep copies of the same field; the result is a
+    Trajectory sized by the new time vector with the same field sets.
 R10 out-of-envelope states are refused rather than extrapolated or filled with
     NaN: the evaluate path of the performance model interpolates only with
-    bounds-checked scipy interpn (C06-R2).
-R8  level-change altitude schedule ends exactly at the target altitude
-    (algebraic: start + (n-1)·(end-start)/(n-1) ≡ end) and is called with the
-    phase's own start/end altitudes.
+    bounds-checked scipy interpn over its own table (C06-R2).
 """
 
 from __future__ import annotations
@@ -52,13 +83,11 @@ from __future__ import annotations
 import ast
 import re
 
-from ..algebra import normal_form, poly_equal
+from ..algebra import poly_equal
 from ..astutil import first_stmt, last_stmt  # noqa: F401
-from ..astutil import (ancestors, call_name, calls_in, conjuncts, guards_of, local_defs, norm, single_def_value,
-                       stmt_of, stores_to, walk_no_nested)
+from ..astutil import (call_name, calls_in, conjuncts, const_value, guards_of, local_defs, norm, stores_to, walk_no_nested)
 from ..cfg import CFG
-from ..loader import dotted_name
-from ..resolve import closure
+from ..loader import AnalysisError
 
 LEG = 'trajectories/builders/legacy.py'
 BASE = 'trajectories/builders/base.py'
@@ -640,47 +669,57 @@ def rule_buffers(ctx):
                 ctx.ob('C02-R3', meth, f'{s} used as {norm(par)[:50]}', ok, how, line=n.lineno)
     ctx.floor('C02-R3', n_acc, 20, 'reads of the per-point buffers in Container and subclasses')
 
-    # growth keeps the stored prefix and enlarges every buffer to the new capacity
+    # growth keeps the stored prefix and enlarges every buffer to the new capacity (decided on the values that flow:
+    # the capacity is raised once; every resize takes the array out of the field table under a key, resizes it to the
+    # *raised* capacity and stores the result back under the same key -- through whatever locals)
+    from .c06 import Engine, Undecided, canon, uncur
     cm = prog.module(CONT)
     ex = cm.func('Container._expand_capacity')
-    g = CFG(ex.node)
-    dom = g.dominators(edge_ok=lambda a, b, lab: lab != 'e')
-    caps = [(st, how) for t, st, how in stores_to(ex.node) if norm(t) == 'self._capacity']
-    rs = [c for c in calls_in(ex.node) if call_name(c) in ('np.resize', 'numpy.resize')]
-
-    def grows(st, how):
-        if how == 'aug':
-            return isinstance(st.op, (ast.Add, ast.Mult))
-        v = st.value
-        if isinstance(v, ast.Name):
-            v = single_def_value(ex.node, v.id) or v
-        return isinstance(v, ast.BinOp) and isinstance(v.op, (ast.Add, ast.Mult)) and \
-            'self._capacity' in (norm(v.left), norm(v.right))
-
-    def new_capacity(e):
-        if isinstance(e, (ast.Tuple, ast.List)) and len(e.elts) == 1:
-            e = e.elts[0]
-        if norm(e) == 'self._capacity':
-            return True
-        return isinstance(e, ast.Name) and any(how == 'assign' and norm(st.value) == e.id for st, how in caps)
-    ok = len(caps) == 1 and grows(*caps[0]) and bool(rs)
-    why = 'growth no longer raises the capacity exactly once and resizes the arrays'
-    if ok:
-        capn = g.nodes_of(caps[0][0])
-        for c in rs:
-            st = stmt_of(c)
-            size = c.args[1] if len(c.args) > 1 else next((k.value for k in c.keywords if k.arg == 'new_shape'), None)
-            src = c.args[0] if c.args else None
-            back = isinstance(st, ast.Assign) and st.value is c and src is not None and _is_source(src) \
-                and all(isinstance(t, ast.Subscript) and _is_table(t.value) and norm(t.slice) == _key_of(src)
-                        for t in st.targets)
-            after = all(any(x in dom.get(i, ()) for x in capn) for i in g.nodes_of(st))
-            if size is None or not new_capacity(size):
-                ok, why = False, f'`{norm(c)[:60]}` does not resize to the new capacity'
-            elif not back:
-                ok, why = False, f'`{norm(st)[:60]}`: the enlarged array is not stored back into the slot it was read from'
-            elif not after:
-                ok, why = False, 'an array is resized before the capacity is raised'
+    eng = Engine(prog)
+    try:
+        outs = eng.run(ex, self_cls=ex.cls)
+    except Undecided as e:
+        ctx.undecided('C02-R3', ex, ex.name, str(e))
+    ok, why = True, ''
+    n_resize = 0
+    for kind, v, st in outs:
+        if kind != 'return':
+            continue
+        caps = [e for e in st.events if e.kind == 'store' and canon(e.target) == 'self._capacity']
+        rs = [e for e in st.events if e.kind == 'call' and e.name in ('numpy.resize', 'np.resize')]
+        if not rs:
+            continue
+        raised = None
+        if len(caps) == 1 and isinstance(caps[0].value, ast.BinOp) and isinstance(caps[0].value.op, (ast.Add, ast.Mult)) \
+                and 'self._capacity' in (canon(caps[0].value.left), canon(caps[0].value.right)):
+            raised = canon(caps[0].value)
+        if raised is None:
+            ok, why = False, 'growth no longer raises the capacity exactly once before the arrays are resized'
+            break
+        for e in rs:
+            n_resize += 1
+            src = e.arg(0, 'a')
+            src = uncur(src) if src is not None else None
+            size = e.arg(1, 'new_shape')
+            if isinstance(size, (ast.Tuple, ast.List)) and len(size.elts) == 1:
+                size = size.elts[0]
+            if not (src is not None and _is_source(src)):
+                ok, why = False, f'`{canon(e.value)[:60]}` does not resize an array of the field table'
+                break
+            if size is None or canon(size) != raised:
+                ok, why = False, (f'`{canon(e.value)[:70]}` does not resize to the raised capacity `{raised}`'
+                                  + (' (an array is resized before the capacity is raised)' if size is not None and canon(size) == 'self._capacity' else ''))
+                break
+            back = [x for x in st.events if x.kind == 'store' and x.value is e.value or
+                    (x.kind == 'store' and canon(x.value) == canon(e.value))]
+            if not any(isinstance(x.target, ast.Subscript) and _is_table(x.target.value) and canon(x.target.slice) == _key_of(src)
+                       for x in back):
+                ok, why = False, f'`{canon(e.value)[:60]}`: the enlarged array is not stored back into the slot it was read from'
+                break
+        if not ok:
+            break
+    if ok and not n_resize:
+        ok, why = False, 'growth no longer resizes the arrays'
     ctx.ob('C02-R3', ex, 'growth enlarges every buffer to the new capacity', ok,
            'capacity raised first, every array resized to it and stored back' if ok else why)
 
@@ -733,156 +772,310 @@ def rule_buffers(ctx):
            'append ordering changed (write past capacity, or size counted before the write)')
 
 
-# ----------------------------------------------------------------- R1/R2/R4/R7 ---
-def flight_methods(prog):
+# ----------------------------------------------------------------- R1/R2/R4/R5/R7/R8 ---
+# The flight phases, decided on the values that flow.  Each phase method of the builder (fly_<phase> for the members
+# of FlightPhase) is executed symbolically with the builder's own helpers inlined (_fly_level_change with the phase's
+# arguments, _start_point ...).  A loop over the steps of a phase is summarised by one symbolic iteration in which the
+# fields of the point that the loop itself writes read back as `_cur(point.field)` -- the value the previous step left.
+# A *step* below is one way through that iteration: its stores, in order, with values in terms of `_cur(...)`.
+PHASE_RULE = {'CLIMB': 'CLIMB', 'CRUISE': 'CRUISE', 'DESCENT': 'DESCEND'}
+PHASE_ALTS = {'CLIMB': ('self.clm_start_altitude', 'self.crz_start_altitude'),
+              'DESCENT': ('self.des_start_altitude', 'self.des_end_altitude')}
+
+
+class _Step:
+    def __init__(self, events):
+        self.events = events
+        self.final = {}          # canon(target) -> (target, value, event) of the last store
+        for e in events:
+            if e.kind == 'store':
+                self.final[_c(e.target)] = (e.target, e.value, e)
+
+    def stores(self, attr):
+        return [(t, v, e) for t, v, e in self.final.values() if isinstance(t, ast.Attribute) and t.attr == attr]
+
+
+def _c(e):
+    from .c06 import canon
+    return canon(e)
+
+
+def _phase_runs(ctx):
+    """{phase: (method, pre-loop events, [steps])} for the phases the builder flies"""
+    from .c06 import Engine, Undecided
+    prog = ctx.prog
+    cached = prog.__dict__.get('_c02_phases')
+    if cached is not None:
+        return cached
     lm = prog.module(LEG)
     lb = lm.cls('LegacyBuilder')
-    roots = [m for n, m in lb.methods.items() if n.startswith(('fly_', '_fly'))]
-    roots.append(prog.func(BASE, 'Builder._start_point'))
-    roots.append(prog.func(BASE, 'Builder._fly_iteration'))
-    fns = [f for f in closure(prog, roots) if f.file.endswith((LEG, BASE))]
-    return fns
-
-
-def rule_bookkeeping(ctx):
-    prog = ctx.prog
-    fns = flight_methods(prog)
-    mass_attrs = ('fuel_mass', 'aircraft_mass')
-    pairs = 0
-    for fi in fns:
-        stores = [(t, st, how) for t, st, how in stores_to(fi.node)
-                  if isinstance(t, ast.Attribute) and t.attr in mass_attrs + ('flight_time', 'ground_distance')
-                  and norm(t.value) not in ('self', 'traj')]
-        by_block = {}
-        for t, st, how in stores:
-            by_block.setdefault(id(getattr(st, '_parent', None)), []).append((t, st, how))
-        for t, st, how in stores:
-            a = t.attr
-            if fi.qualname == 'Builder._start_point':
-                if a in mass_attrs:
-                    want = {'aircraft_mass': 'self.starting_mass', 'fuel_mass': 'self.total_fuel_mass'}[a]
-                    ok = how == 'assign' and norm(st.value) == want
-                    ctx.ob('C02-R5', fi, norm(st), ok,
-                           'first point carries the context value fly() reports' if ok else
-                           f'first point {a} is not initialised from {want}', line=st.lineno)
-                else:
-                    ok = how == 'assign' and isinstance(st.value, ast.Constant) and st.value.value == 0
-                    ctx.ob('C02-R7', fi, norm(st), ok, 'accumulator starts at zero' if ok else
-                           f'{a} does not start at zero', line=st.lineno)
-                continue
-            if a in mass_attrs:
-                if not (how == 'aug' and isinstance(st.op, ast.Sub)):
-                    ctx.ob('C02-R1', fi, norm(st), False,
-                           f'{a} written other than by subtracting the segment fuel', line=st.lineno)
-                    continue
-                other = 'aircraft_mass' if a == 'fuel_mass' else 'fuel_mass'
-                sib = [s for tt, s, h in by_block[id(getattr(st, '_parent', None))]
-                       if tt.attr == other and norm(tt.value) == norm(t.value) and h == 'aug'
-                       and isinstance(s.op, ast.Sub)]
-                ok = len(sib) == 1 and norm(sib[0].value) == norm(st.value)
-                if ok:
-                    # no redefinition of the subtracted name between the two statements
-                    lo, hi = sorted([st.lineno, sib[0].lineno])
-                    names = {x.id for x in ast.walk(st.value) if isinstance(x, ast.Name)}
-                    redef = [s for tt, s, h in stores_to(fi.node) if isinstance(tt, ast.Name) and tt.id in names
-                             and lo < s.lineno < hi]
-                    ok = not redef
-                pairs += 1 if a == 'fuel_mass' else 0
-                ctx.ob('C02-R1', fi, f'{norm(st)} paired with {other}', ok,
-                       'same segment fuel subtracted from both in one block' if ok else
-                       f'{a} and {other} are not decremented by the same amount in the same block: '
-                       'aircraft mass minus fuel mass is no longer constant', line=st.lineno)
-            else:
-                ok = how == 'aug' and isinstance(st.op, ast.Add)
-                ctx.ob('C02-R7', fi, norm(st), ok, 'accumulated by addition' if ok else
-                       f'{a} is assigned or decreased on the flight path', line=st.lineno)
-    ctx.floor('C02-R1', pairs, 2, 'fuel/aircraft mass decrement pairs')
-
-    # R2 clamp dominance
-    lm = prog.module(LEG)
-    lc = lm.func('LegacyBuilder._fly_level_change')
-    g = CFG(lc.node)
-    dom = g.dominators(edge_ok=lambda a, b, lab: lab != 'e')
-    uses = [n for n in g.nodes if n.kind == 'stmt' and isinstance(n.stmt, ast.AugAssign)
-            and isinstance(n.stmt.target, ast.Attribute) and n.stmt.target.attr in mass_attrs]
-    for u in uses:
-        var = norm(u.stmt.value)
-        clamp_tests = [n for n in g.nodes if n.kind == 'test' and isinstance(n.stmt, ast.If)
-                       and norm(n.stmt.test) in (f'{var} < 0', f'{var} <= 0', f'0 > {var}')
-                       and any(isinstance(s, ast.Assign) and norm(s.targets[0]) == var and
-                               isinstance(s.value, ast.Constant) and s.value.value == 0 for s in n.stmt.body)]
-        maxform = [n for n in g.nodes if n.kind == 'stmt' and isinstance(n.stmt, ast.Assign)
-                   and norm(n.stmt.targets[0]) == var and isinstance(n.stmt.value, ast.Call)
-                   and call_name(n.stmt.value) in ('max', 'np.maximum', 'np.clip')]
-        gates = clamp_tests + maxform
-        ok = False
-        why = f'no non-negativity clamp on `{var}` before it is subtracted'
-        for t in gates:
-            if t.id in dom[u.id]:
-                # no other def of var between the clamp test and the use
-                clamp_body = set()
-                if t.kind == 'test':
-                    clamp_body = {x for s in t.stmt.body for x in g.nodes_of(s)}
-                defs = [n for n in g.nodes if n.kind == 'stmt' and n.id not in clamp_body and n.id != t.id and any(
-                    isinstance(tt, ast.Name) and tt.id == var for tt, s, h in stores_to(n.stmt))]
-                between = [d for d in defs if g.reaches(t.id, d.id, edge_ok=lambda a, b, lab: lab != 'e' and b != u.id)
-                           and g.reaches(d.id, u.id, edge_ok=lambda a, b, lab: lab != 'e')
-                           and not _loop_back(g, d.id, t.id, u.id)]
-                if not between:
-                    ok, why = True, f'clamp at line {t.line} dominates the decrement and nothing redefines `{var}` after it'
-                else:
-                    why = f'`{var}` is redefined at line {between[0].line} after the clamp'
-        ctx.ob('C02-R2', lc, f'{norm(u.stmt)} uses clamped {var}', ok, why, line=u.line)
-    ctx.floor('C02-R2', len(uses), 2, 'mass decrements in _fly_level_change')
-
-    # R4 position/distance pairing
-    npos = 0
-    for fi in fns:
-        if fi.qualname == 'Builder._start_point':
+    phases = prog.cls('storage/phase.py', 'FlightPhase')
+    out = {}
+    for ph in [k for k, v in phases.class_assignments().items() if k.isupper()]:
+        meth = lb.find_method('fly_' + ph.lower())
+        if meth is None:
             continue
-        for t, st, how in stores_to(fi.node):
-            if isinstance(t, ast.Attribute) and t.attr in ('longitude', 'latitude', 'azimuth') \
-                    and norm(t.value) == 'pt':
-                npos += 1
-                v = st.value
-                src_ok = isinstance(v, ast.Attribute) and v.attr == t.attr
-                base = v
-                while isinstance(base, ast.Attribute):
-                    base = base.value
-                step_call = single_def_value(fi.node, base.id) if isinstance(base, ast.Name) else None
-                from_step = isinstance(step_call, ast.Call) and call_name(step_call) == 'self.ground_track.step'
-                ok = src_ok and from_step
-                why = f'{t.attr} taken from the stepped ground-track point'
-                if not src_ok:
-                    why = f'pt.{t.attr} receives `{norm(v)}`: a different component'
-                elif not from_step:
-                    why = 'position does not come from ground_track.step()'
-                if ok:
-                    a0, a1 = step_call.args[0], step_call.args[1]
-                    ok = norm(a0) == 'pt.ground_distance'
-                    if not ok:
-                        why = f'step starts from `{norm(a0)}`, not from the point\'s accumulated ground distance'
+        eng = Engine(prog, inline=lambda fi: fi.file.endswith((LEG, BASE)))
+        try:
+            outs = eng.run(meth, self_cls=lb)
+        except Undecided as ex:
+            ctx.undecided('C02-R1', meth, meth.name, str(ex))
+        pre, steps, seen = [], [], set()
+        for kind, v, st in outs:
+            cur = []
+            for e in st.events:
+                if e.kind == 'endpath':
+                    key = tuple(id(x.node) for x in cur) + tuple(_c(c) + str(p) for c, p in (cur[-1].pc if cur else ()))
+                    if cur and key not in seen:
+                        seen.add(key)
+                        steps.append(_Step(cur))
+                    cur = []
+                elif e.loops:
+                    cur.append(e)
+                elif id(e) not in seen:
+                    seen.add(id(e))
+                    if not any(x.node is e.node and _c(x.value or ast.Constant(0)) == _c(e.value or ast.Constant(0))
+                               and _c(x.target or ast.Constant(0)) == _c(e.target or ast.Constant(0)) for x in pre):
+                        pre.append(e)
+        out[ph] = (meth, pre, steps)
+    missing = [p for p in PHASE_RULE if p not in out]
+    if missing:
+        raise AnalysisError(f'anchor vanished: the builder has no fly_{missing[0].lower()}')
+    prog.__dict__['_c02_phases'] = out
+    return out
+
+
+def _delta(final_value, cur_text):
+    """(sign, amount expression) when final_value is `_cur(x) + a` / `_cur(x) - a` (nested: the total), else None"""
+    from .c06 import is_sym
+    terms = []
+
+    def walk(e, sign):
+        if isinstance(e, ast.BinOp) and isinstance(e.op, (ast.Add, ast.Sub)):
+            walk(e.left, sign)
+            walk(e.right, sign if isinstance(e.op, ast.Add) else -sign)
+        else:
+            terms.append((sign, e))
+    walk(final_value, 1)
+    base = [(s, t) for s, t in terms if is_sym(t, '_cur') and _c(t.args[0]) == cur_text]
+    rest = [(s, t) for s, t in terms if not (is_sym(t, '_cur') and _c(t.args[0]) == cur_text)]
+    if len(base) != 1 or base[0][0] != 1:
+        return None
+    return rest
+
+
+def _amount_nf(rest):
+    from .c06 import _nf
+    expr = None
+    for s, t in rest:
+        t2 = t if s > 0 else ast.UnaryOp(op=ast.USub(), operand=t)
+        expr = t2 if expr is None else ast.BinOp(left=expr, op=ast.Add(), right=t2)
+    return _nf(expr if expr is not None else ast.Constant(0), {})
+
+
+def rule_flight(ctx):
+    from .c06 import canon, ceval, is_sym, uncur, _nf
+    prog = ctx.prog
+    runs = _phase_runs(ctx)
+    n_pairs = n_pos = n_clamp = 0
+    for ph, (meth, pre, steps) in runs.items():
+        if not steps:
+            ctx.undecided('C02-R1', meth, ph, 'no stepping loop found in the phase')
+        for stp in steps:
+            fm, am = stp.stores('fuel_mass'), stp.stores('aircraft_mass')
+            # ---- R1: the same amount leaves the fuel and the aircraft
+            for t, v, e in fm + am:
+                other = 'aircraft_mass' if t.attr == 'fuel_mass' else 'fuel_mass'
+                sib = [(t2, v2, e2) for t2, v2, e2 in (am if t.attr == 'fuel_mass' else fm) if canon(t2.value) == canon(t.value)]
+                d = _delta(v, canon(t))
+                if d is None or any(s > 0 and not (isinstance(x, ast.Constant) and x.value == 0) for s, x in d):
+                    ctx.ob('C02-R1', e.fi, f'{t.attr} = {canon(uncur(v))[:60]}', False,
+                           f'{t.attr} written other than by subtracting the segment fuel from its previous value', line=e.line)
+                    continue
+                if not sib:
+                    ctx.ob('C02-R1', e.fi, f'{t.attr} -= {canon(uncur(v))[:50]} paired with {other}', False,
+                           f'{t.attr} is decremented on a step that leaves {other} alone: aircraft mass minus fuel mass is no longer constant',
+                           line=e.line)
+                    continue
+                d2 = _delta(sib[0][1], canon(sib[0][0]))
+                a1, a2 = _amount_nf(d), (_amount_nf(d2) if d2 is not None else None)
+                same = (a1 is not None and a2 is not None and poly_equal(a1, a2)) or \
+                    (d2 is not None and sorted((s, canon(x)) for s, x in d) == sorted((s, canon(x)) for s, x in d2))
+                if t.attr == 'fuel_mass':
+                    n_pairs += 1
+                    ctx.ob('C02-R1', e.fi, f'{ph.lower()} step: fuel_mass and aircraft_mass change by {canon(uncur(v)).split(" - ", 1)[-1][:60]}', same,
+                           'same segment fuel subtracted from both' if same else
+                           'fuel_mass and aircraft_mass are not decremented by the same amount on this step: '
+                           'aircraft mass minus fuel mass is no longer constant', line=e.line)
+            # ---- R2 (level changes): the amount subtracted cannot be negative
+            if ph in PHASE_ALTS:
+                for t, v, e in fm:
+                    d = _delta(v, canon(t))
+                    if not d:
+                        continue
+                    n_clamp += 1
+                    if isinstance(v, ast.BinOp) and isinstance(v.op, ast.Sub) and is_sym(v.left, '_cur') and canon(v.left.args[0]) == canon(t):
+                        d = [(-1, v.right)]         # one amount, however it was put together
+                    ok, why = _non_negative(d, e, ceval, canon, is_sym)
+                    if ok is None:
+                        ctx.undecided('C02-R2', e.fi, canon(uncur(v))[:80], why)
+                    ctx.ob('C02-R2', e.fi, f'{ph.lower()} step subtracts {" ".join(("-" if s > 0 else "+") + canon(uncur(x))[:40] for s, x in d)}',
+                           ok, why, line=e.line)
+            # ---- R4: the new position is the track point at the new ground distance
+            gd = stp.stores('ground_distance')
+            for attr, want in (('longitude', ('location', 'longitude')), ('latitude', ('location', 'latitude')), ('azimuth', ('azimuth',))):
+                for t, v, e in stp.stores(attr):
+                    n_pos += 1
+                    chain = []
+                    x = v
+                    while isinstance(x, ast.Attribute):
+                        chain.append(x.attr)
+                        x = x.value
+                    chain.reverse()
+                    step_ok = isinstance(x, ast.Call) and isinstance(x.func, ast.Attribute) and x.func.attr == 'step' \
+                        and canon(x.func.value).endswith('ground_track') and len(x.args) + len(x.keywords) == 2
+                    look_ok = isinstance(x, ast.Call) and isinstance(x.func, ast.Attribute) and x.func.attr == 'location' \
+                        and canon(x.func.value).endswith('ground_track') and len(x.args) + len(x.keywords) == 1
+                    if look_ok and tuple(chain) == want:
+                        # looked up at an absolute distance: must be the new ground distance, and nothing on the way
+                        # refuses a negative advance unless the path itself does
+                        a = x.args[0] if x.args else x.keywords[0].value
+                        mine = [g for g in gd if canon(g[0].value) == canon(t.value)]
+                        final = _nf(mine[0][1], {}) if mine else None
+                        reached = _nf(a, {})
+                        if not mine or final is None or reached is None or not poly_equal(final, reached):
+                            ctx.ob('C02-R4', e.fi, f'{ph.lower()} step: pt.{attr} = ground_track.location({canon(uncur(a))[:40]}).{".".join(want)}', False,
+                                   'the point is looked up at a distance that is not the ground distance the step arrives at', line=e.line)
+                            continue
+                        adv = _delta(mine[0][1], canon(mine[0][0]))
+                        okn, whyn = _non_negative([(-s, y) for s, y in adv] if adv else [], e, ceval, canon, is_sym) if adv and len(adv) == 1 \
+                            else (None, 'advance is not a single amount')
+                        if okn is None:
+                            ctx.undecided('C02-R4', e.fi, canon(uncur(v))[:80], whyn)
+                        ctx.ob('C02-R4', e.fi, f'{ph.lower()} step: pt.{attr} = ground_track.location(pt.ground_distance + d).{".".join(want)}', okn,
+                               'track point at the new ground distance; the path refuses a negative advance' if okn else
+                               ('the position is looked up with location(ground_distance + d), which accepts a negative d (step() is what refuses it): '
+                                'a mission too short for its climb and descent flies this phase backwards -- distance and time decrease, '
+                                'mass increases -- instead of being refused'), line=e.line)
+                        continue
+                    if not step_ok:
+                        ctx.ob('C02-R4', e.fi, f'pt.{attr} = {canon(uncur(v))[:60]}', False,
+                               'position does not come from the ground track at the distance the step arrives at', line=e.line)
+                        continue
+                    if tuple(chain) != want:
+                        ctx.ob('C02-R4', e.fi, f'pt.{attr} = <step>.{".".join(chain)}', False,
+                               f'pt.{attr} receives `.{".".join(chain)}` of the stepped point: a different component', line=e.line)
+                        continue
+                    a0 = x.args[0] if x.args else next(k.value for k in x.keywords if k.arg in ('from_distance', 'start', 'distance'))
+                    a1 = x.args[1] if len(x.args) > 1 else next((k.value for k in x.keywords if k.arg not in ('from_distance', 'start')), None)
+                    mine = [g for g in gd if canon(g[0].value) == canon(t.value)]
+                    cur_gd = f'{canon(t.value)}.ground_distance'
+                    if not mine:
+                        ok, why = False, 'the point is moved along the track but its ground distance is not advanced on this step'
                     else:
-                        blk = getattr(st, '_parent', None)
-                        adds = [s for tt, s, h in stores_to(fi.node) if norm(tt) == 'pt.ground_distance'
-                                and getattr(s, '_parent', None) is blk]
-                        ok = len(adds) == 1 and isinstance(adds[0], ast.AugAssign) and norm(adds[0].value) == norm(a1)
-                        why = (f'the same `{norm(a1)}` is added to pt.ground_distance in that block' if ok else
-                               f'the distance stepped (`{norm(a1)}`) is not the distance added to pt.ground_distance')
-                        if ok:
-                            sc = stmt_of(step_call)
-                            lo, hi = sorted([sc.lineno, adds[0].lineno])
-                            ok = adds[0].lineno > sc.lineno
-                            if not ok:
-                                why = 'ground distance is advanced before the step is taken from it'
-                ctx.ob('C02-R4', fi, norm(st), ok, why, line=st.lineno)
-    ctx.floor('C02-R4', npos, 6, 'position writes on the flight path')
-    sp = prog.func(BASE, 'Builder._start_point')
-    for t, st, how in stores_to(sp.node):
-        if isinstance(t, ast.Attribute) and t.attr in ('longitude', 'latitude', 'azimuth'):
-            ok = isinstance(st.value, ast.Attribute) and st.value.attr == t.attr and 'start' in norm(st.value)
-            ctx.ob('C02-R4', sp, norm(st), ok, 'first point is the start of the ground track' if ok else
-                   'first point position does not come from the track start', line=st.lineno, nontrivial=False)
+                        reached = _nf(ast.BinOp(left=a0, op=ast.Add(), right=a1), {})
+                        final = _nf(mine[0][1], {})
+                        ok = reached is not None and final is not None and poly_equal(reached, final)
+                        start_ok = canon(uncur(a0)) == cur_gd
+                        if ok and not start_ok:
+                            ok = False
+                        why = ('track point at ground_distance + d, and the same d is added to pt.ground_distance' if ok else
+                               (f'the step starts from `{canon(uncur(a0))[:50]}`, not from the point\'s accumulated ground distance' if not start_ok else
+                                f'the distance stepped (`{canon(uncur(a1))[:50]}`) is not the distance added to pt.ground_distance'))
+                    ctx.ob('C02-R4', e.fi, f'{ph.lower()} step: pt.{attr} = ground_track.step(pt.ground_distance, d).{".".join(want)}', ok, why, line=e.line)
+            # ---- R7: time and distance only ever grow by the step's own amount
+            for attr in ('flight_time', 'ground_distance'):
+                for t, v, e in stp.stores(attr):
+                    d = _delta(v, canon(t))
+                    ok = d is not None and all(s > 0 for s, _ in d)
+                    ctx.ob('C02-R7', e.fi, f'{ph.lower()} step: {attr} = {canon(uncur(v))[:60]}', ok,
+                           'accumulated by addition' if ok else f'{attr} is assigned or decreased on the flight path', line=e.line)
+    # a phase that is not the first continues from the last stored point of the trajectory
+    order = [ph for ph in runs]
+    for ph, (meth, pre, steps) in runs.items():
+        pts = sorted({canon(t.value) for stp in steps for t, v, e in stp.stores('fuel_mass')})
+        for ptxt in pts:
+            pe = ast.parse(ptxt, mode='eval').body
+            is_mk = isinstance(pe, ast.Call) and isinstance(pe.func, ast.Attribute) and pe.func.attr == 'make_point'
+            if not is_mk:
+                ctx.undecided('C02-R1', meth, ptxt[:80], 'the point a phase advances is not made by make_point()')
+            idx = pe.args[0] if pe.args else next((k.value for k in pe.keywords if k.arg == 'idx'), None)
+            if ph == order[0]:
+                ok = idx is None or (isinstance(idx, ast.Constant) and idx.value is None)
+                why = 'first phase starts from a fresh point' if ok else 'the first phase starts from a stored point'
+            else:
+                ok = idx is not None and (const_value(idx) == -1 or canon(idx) in ('len(traj) - 1', 'traj._size - 1'))
+                why = 'continues from the last stored point' if ok else \
+                    (f'{ph.lower()} starts from point `{canon(idx) if idx is not None else "(uninitialised)"}`, not from the last point of the '
+                     'previous phase: mass, time and distance jump at the hand-over')
+            ctx.ob('C02-R1', meth, f'{ph.lower()} advances {ptxt.replace("traj.", "")}', ok, why, nontrivial=False)
+    ctx.floor('C02-R1', n_pairs, 2, 'fuel/aircraft mass decrement pairs')
+    ctx.floor('C02-R2', n_clamp, 2, 'mass decrements in the level-change phases')
+    ctx.floor('C02-R4', n_pos, 6, 'position writes on the flight path')
+
+    # ---- R5 / R7 / R4: the first point
+    meth, pre, csteps = runs['CLIMB']
+    points = {canon(t.value) for stp in csteps for t, v, e in stp.stores('fuel_mass')}
+    first = {}
+    for e in pre:
+        if e.kind == 'store' and isinstance(e.target, ast.Attribute) and canon(e.target.value) in points \
+                and not any(x.kind == 'endpath' for x in ()):
+            first.setdefault(e.target.attr, e)      # the initialisation of the point the climb loop then advances
+    def ctx_field(v):
+        # the builder forwards attribute access to its per-flight context: self.x and self.ctx.x are one field
+        return canon(v).replace('self.ctx.', 'self.') if v is not None else None
+    for attr, want in (('aircraft_mass', 'self.starting_mass'), ('fuel_mass', 'self.total_fuel_mass')):
+        e = first.get(attr)
+        ok = e is not None and ctx_field(e.value) == want
+        ctx.ob('C02-R5', (e.fi if e is not None else meth), f'pt.{attr} = {canon(e.value)[:50] if e is not None else "?"}', ok,
+               'first point carries the context value fly() reports' if ok else
+               f'first point {attr} is not initialised from {want}', line=(e.line if e is not None else 0))
+    for attr in ('flight_time', 'ground_distance'):
+        e = first.get(attr)
+        ok = e is not None and isinstance(e.value, ast.Constant) and e.value.value == 0
+        ctx.ob('C02-R7', (e.fi if e is not None else meth), f'pt.{attr} = {canon(e.value)[:30] if e is not None else "?"}', ok,
+               'accumulator starts at zero' if ok else f'{attr} does not start at zero', line=(e.line if e is not None else 0))
+    for attr, tail in (('longitude', 'location.longitude'), ('latitude', 'location.latitude'), ('azimuth', 'azimuth')):
+        e = first.get(attr)
+        if e is None:
+            ctx.ob('C02-R4', meth, f'pt.{attr} of the first point', False, f'the first point\'s {attr} is never set', nontrivial=False)
+            continue
+        txt = ctx_field(e.value)
+        heads = ('self.ground_track[0].', 'self.ground_track.location(0).', 'self.ground_track.location(0.0).',
+                 'self.ground_track.step(0, 0).', 'self.ground_track.step(0.0, 0.0).')
+        head = next((h for h in heads if txt.startswith(h)), None)
+        if head is None:
+            ctx.undecided('C02-R4', e.fi, txt[:80], 'source of the first point\'s position not recognised as the start of the ground track')
+        ok = txt[len(head):] == tail
+        ctx.ob('C02-R4', e.fi, f'pt.{attr} = {txt[:50]}', ok,
+               'first point is the start of the ground track' if ok else
+               f'pt.{attr} of the first point receives `.{txt[len(head):]}` of the track start: a different component',
+               line=e.line, nontrivial=False)
+    # ground_track.step() itself refuses a negative advance (that refusal is what rejects a mission that is too short)
+    from .c06 import Engine as _E, Undecided as _U
+    stepf = prog.func('trajectories/ground_track.py', 'GroundTrack.step')
+    try:
+        souts = _E(prog, inline=lambda fi: False).run(stepf, self_cls=stepf.cls)
+    except _U as ex:
+        ctx.undecided('C02-R4', stepf, 'step', str(ex))
+    dpar = stepf.params[2] if len(stepf.params) > 2 else 'distance_step'
+    open_paths = []
+    for kind, v, st in souts:
+        if kind != 'return':
+            continue
+        closed = False
+        for cond, pol in st.pc:
+            try:
+                if bool(ceval(cond, {dpar: -1.0, stepf.params[1]: 5.0})) != pol:
+                    closed = True
+                    break
+            except Exception:
+                continue
+        if not closed:
+            open_paths.append(st)
+    ctx.ob('C02-R4', stepf, 'ground_track.step refuses a negative distance step', not open_paths,
+           'every returning path excludes distance_step < 0' if not open_paths else
+           'a negative step is answered with a point: a mission too short for its climb and descent is flown backwards instead of being refused')
     from .c15 import rule_track  # leg coherence of the forward geodesic
     sub = type(ctx)(ctx.prop, ctx.prog, ctx.tier)
     rule_track(sub)
@@ -891,159 +1084,451 @@ def rule_bookkeeping(ctx):
             o.rule = 'C02-R4'
             ctx.obligations.append(o)
 
-    # R5: fly() reports the same context fields
+    # ---- R5: fly() reports the same context fields
+    from .c06 import Engine, Undecided
     fly = prog.func(BASE, 'Builder.fly')
-    want = {'traj.starting_mass': 'self.starting_mass', 'traj.total_fuel_mass': 'self.total_fuel_mass'}
-    for t, st, how in stores_to(fly.node):
-        if norm(t) in want:
-            ok = norm(st.value) == want[norm(t)]
-            ctx.ob('C02-R5', fly, norm(st), ok, 'reported metadata is the context value' if ok else
-                   'reported starting mass / fuel load differs from what the first point carries', line=st.lineno)
+    eng = Engine(prog, inline=lambda fi: fi.file == fly.file, read_back=False)
+    try:
+        outs = eng.run(fly, self_cls=fly.cls)
+    except Undecided as ex:
+        ctx.undecided('C02-R5', fly, 'fly', str(ex))
+    want = {'starting_mass': 'self.starting_mass', 'total_fuel_mass': 'self.total_fuel_mass'}
+    seen = {}
+    for kind, v, st in outs:
+        if kind != 'return':
+            continue
+        got = {e.target.attr: e for e in st.events if e.kind == 'store' and isinstance(e.target, ast.Attribute)
+               and e.target.attr in want and canon(e.target.value) == canon(v)}
+        for attr, w in want.items():
+            e = got.get(attr)
+            key = (attr, canon(e.value) if e is not None else None)
+            if key in seen:
+                continue
+            seen[key] = True
+            ok = e is not None and ctx_field(e.value) == w
+            ctx.ob('C02-R5', fly, f'traj.{attr} = {canon(e.value)[:50] if e is not None else "(not set)"}', ok,
+                   'reported metadata is the context value' if ok else
+                   'reported starting mass / fuel load differs from what the first point carries', line=(e.line if e is not None else fly.node.lineno))
+
+    # ---- R8: the altitude schedule of each phase
+    rules_seen = {}
+    for ph, (meth, pre, steps) in runs.items():
+        alt_pre = [e for e in pre if e.kind == 'store' and isinstance(e.target, ast.Attribute) and e.target.attr == 'altitude']
+        alt_loop = {}
+        for stp in steps:
+            for t, v, e in stp.stores('altitude'):
+                alt_loop[canon(v)] = (v, e, stp)
+        if ph in PHASE_ALTS:
+            s_alt, e_alt = PHASE_ALTS[ph]
+            if len(alt_loop) != 1:
+                ctx.undecided('C02-R8', meth, f'{ph} altitude', f'{len(alt_loop)} different altitude assignments in the stepping loop')
+            v, e, stp = next(iter(alt_loop.values()))
+            each = next((n for n in ast.walk(v) if is_sym(n, '_each')), None)
+            rng = each.args[0] if each is not None else None
+            if not (isinstance(rng, ast.Call) and canon(rng.func) == 'range' and len(rng.args) == 1):
+                ctx.undecided('C02-R8', e.fi, canon(v)[:80], 'altitude schedule is not a function of the index of a range(n) loop')
+            n_expr = rng.args[0]
+
+            def at(index_expr):
+                class Sub(ast.NodeTransformer):
+                    def visit_Call(self, n):
+                        if is_sym(n, '_each') and canon(n) == canon(each):
+                            return index_expr
+                        return self.generic_visit(n)
+                from .c06 import clone
+                return _nf(Sub().visit(clone(v)), {})
+            last = at(ast.BinOp(left=n_expr, op=ast.Sub(), right=ast.Constant(1)))
+            first_ = at(ast.Constant(0))
+            want_last = _nf(ast.parse(e_alt, mode='eval').body, {})
+            want_first = _nf(ast.parse(s_alt, mode='eval').body, {})
+            if last is None or first_ is None:
+                ctx.undecided('C02-R8', e.fi, canon(v)[:80], 'cannot normalise the altitude schedule')
+            ok = poly_equal(last, want_last) and poly_equal(first_, want_first)
+            ctx.ob('C02-R8', e.fi, f'{ph.lower()} altitude schedule runs from {s_alt} to {e_alt}', ok,
+                   'with i = 0: start; with i = n − 1: start + (n − 1)·(end − start)/(n − 1) ≡ end' if ok else
+                   (f'last point altitude normalises to {last}, not {e_alt}' if not poly_equal(last, want_last) else
+                    f'first point altitude normalises to {first_}, not {s_alt}'), line=e.line)
+            # the last index appends the point and leaves the loop without flying a further segment
+            lasts = []
+            for stp2 in steps:
+                pc = stp2.events[-1].pc if stp2.events else ()
+                for c, p in pc:
+                    if p and isinstance(c, ast.Compare) and len(c.ops) == 1 and isinstance(c.ops[0], ast.Eq):
+                        l = _nf(ast.BinOp(left=c.left, op=ast.Sub(), right=c.comparators[0]), {})
+                        w = _nf(ast.BinOp(left=each, op=ast.Sub(), right=ast.BinOp(left=n_expr, op=ast.Sub(), right=ast.Constant(1))), {})
+                        if l is not None and w is not None and (poly_equal(l, w) or (l + w).is_zero()):
+                            lasts.append(stp2)
+            ok = bool(lasts) and all(any(x.kind == 'call' and x.name == '.append' for x in s2.events) and not s2.stores('fuel_mass')
+                                     for s2 in lasts)
+            ctx.ob('C02-R8', meth, f'{ph.lower()}: the last altitude step appends its point and stops', ok,
+                   'point appended, no further segment flown' if ok else 'last point is not appended before leaving the loop',
+                   nontrivial=False)
+        else:
+            ok = not alt_loop and len({canon(e.value) for e in alt_pre}) == 1 and canon(alt_pre[0].value) == 'self.crz_start_altitude'
+            ctx.ob('C02-R8', meth, 'cruise altitude constant at the cruise level', ok,
+                   'set once before the cruise loop' if ok else 'cruise altitude varies or is not the cruise level',
+                   line=(alt_pre[0].line if alt_pre else meth.node.lineno))
+        # the performance rule and the phase marker of the phase
+        for stp in steps:
+            for x in stp.events:
+                if x.kind == 'call' and x.name == '.evaluate' and len(x.args) + len(x.kwargs) >= 2:
+                    r = x.args[1] if len(x.args) > 1 else x.kwargs.get('rules')
+                    rules_seen.setdefault(ph, set()).add(canon(r))
+        got = rules_seen.get(ph, set())
+        ok = got == {f'SimpleFlightRules.{PHASE_RULE[ph]}'}
+        ctx.ob('C02-R8', meth, f'{ph.lower()} evaluates the performance model under {sorted(got)}', ok,
+               'phase flown with its own flight rule' if ok else
+               'phase is flown between the wrong altitudes or with the wrong performance rule')
+        marks = {canon(x.args[0]) for x in pre if x.kind == 'call' and x.name == '.set_phase' and x.args}
+        ok = marks == {f'FlightPhase.{ph}'}
+        ctx.ob('C02-R8', meth, f'{ph.lower()} points are marked {sorted(marks)}', ok, 'own phase' if ok else 'points are counted under another phase',
+               nontrivial=False)
 
 
-def _loop_back(g, d, t, u):
-    return False
+def _non_negative(d, e, ceval, canon, is_sym):
+    """(ok, why): the total subtracted `sum(-s * x)` cannot be negative on the path of event e"""
+    if all(isinstance(x, ast.Constant) and isinstance(x.value, (int, float)) and x.value >= 0 for s, x in d if s < 0) \
+            and all(s < 0 for s, _ in d):
+        return True, 'zero (the clamped branch)'
+    if len(d) == 1 and d[0][0] < 0:
+        x = d[0][1]
+        if isinstance(x, ast.Call) and canon(x.func) in ('max', 'np.maximum', 'numpy.maximum') and any(
+                isinstance(a, ast.Constant) and a.value == 0 for a in x.args):
+            return True, 'max(·, 0)'
+        if isinstance(x, ast.Call) and canon(x.func) in ('np.clip', 'numpy.clip') and len(x.args) >= 2 \
+                and isinstance(x.args[1], ast.Constant) and x.args[1].value == 0:
+            return True, 'clip(·, 0, …)'
+        xt = canon(x)
+        # is the path still open to a negative amount?  evaluate its conditions with the amount at -1
+        closed = False
+        for cond, pol in e.pc:
+            if xt not in canon(cond):
+                continue
+
+            def atom(n):
+                if canon(n) == xt:
+                    return -1.0
+                return NotImplemented
+            try:
+                if bool(ceval(cond, {}, atom)) != pol:
+                    closed = True
+            except Exception:
+                continue
+        if closed:
+            return True, 'the path is only taken when the amount is not negative (clamp test dominates the decrement)'
+        return False, f'no non-negativity clamp on `{xt[:60]}` before it is subtracted: decelerating can add fuel'
+    return None, 'decrement is not a single clamped amount'
 
 
-# ----------------------------------------------------------------- R6/R8 ---
+# ----------------------------------------------------------------- R6 ---
+# The altitude schedule of a mission, decided by evaluating the context constructor's own paths on explicit missions.
+# Oracle (property statement + the builder's documented schedule): climb starts 3000 ft above the origin, at the origin's
+# own elevation if that level would reach the ceiling; cruise 7000 ft below the ceiling, not below the climb start, not
+# above the ceiling; descent starts at the cruise level and ends 3000 ft above the destination, at the ceiling if that
+# level would reach it; a mission whose climb start lies above the cruise level, or whose descent would end above the
+# cruise level, is refused.
+def _reference_schedule(o, d, ceil, ft=0.3048):
+    clm = o + 3000.0 * ft
+    if clm >= ceil:
+        clm = o
+    crz = ceil - 7000.0 * ft
+    if crz < clm:
+        crz = clm
+    if crz > ceil:
+        crz = ceil
+    des_end = d + 3000.0 * ft
+    if des_end >= ceil:
+        des_end = ceil
+    if crz < clm or des_end > crz:
+        return None
+    return {'clm_start_altitude': clm, 'crz_start_altitude': crz, 'des_start_altitude': crz, 'des_end_altitude': des_end}
+
+
+SCHEDULE_MISSIONS = [
+    ('sea-level airports', 0.0, 0.0, 12500.0),
+    ('origin 500 m, destination 1500 m', 500.0, 1500.0, 12500.0),
+    ('origin within 3000 ft of the ceiling', 10000.0, 0.0, 10500.0),
+    ('origin above the ceiling', 11000.0, 0.0, 10500.0),
+    ('destination within 3000 ft of the ceiling', 0.0, 10000.0, 10500.0),
+    ('destination + 3000 ft just below the cruise level', 0.0, 9000.0, 12500.0),
+    ('destination + 3000 ft above the cruise level', 0.0, 9600.0, 12500.0),
+    ('origin + 3000 ft above ceiling − 7000 ft', 9500.0, 0.0, 12500.0),
+    ('both airports within 3000 ft of the ceiling', 10000.0, 10000.0, 10500.0),
+    ('origin within 3000 ft of the ceiling, destination 3000 ft lower', 10000.0, 9000.0, 10500.0),
+    ('origin at the ceiling, destination within 3000 ft of it', 10500.0, 10000.0, 10500.0),
+]
+
+
 def rule_schedule(ctx):
+    from .c06 import Engine, Undecided, Unknown, canon, ceval, _name as nm
     prog = ctx.prog
     lm = prog.module(LEG)
     ini = lm.func('LegacyContext.__init__')
-    g = CFG(ini.node)
-    dom = g.dominators(edge_ok=lambda a, b, lab: lab != 'e')
-    sup = [n for n in g.nodes if n.stmt is not None and n.kind == 'stmt' and
-           any(call_name(c) == 'super().__init__' or (isinstance(c.func, ast.Attribute) and c.func.attr == '__init__'
-               and isinstance(c.func.value, ast.Call) and call_name(c.func.value) == 'super') for c in calls_in(n.stmt))]
-    raises = [n for n in g.nodes if n.kind == 'stmt' and isinstance(n.stmt, ast.Raise)]
-    want = [
-        ('cruise level below climb start', lambda t: 'crz_start_altitude < self.clm_start_altitude' in t),
-        ('descent end above descent start', lambda t: 'des_end_altitude > self.des_start_altitude' in t),
-        ('arrival above cruise level', lambda t: 'descent_dist_approx < 0' in t),
-    ]
-    for what, pred in want:
-        hit = [r for r in raises if any(pred(norm(t)) and pol for t, pol, _ in guards_of(r.stmt))]
-        ok = bool(hit) and bool(sup) and all(
-            any(x in dom[sup[0].id] for _, _, o in guards_of(h.stmt) for x in g.nodes_of(o)) for h in hit)
-        ctx.ob('C02-R6', ini, f'infeasible schedule refused: {what}', ok,
-               'raise evaluated before the context is completed' if ok else
-               f'a mission with {what} is no longer refused before flying', line=(hit[0].line if hit else ini.node.lineno))
-    # offsets and fall-backs
-    defs = {}
-    for t, st, how in stores_to(ini.node):
-        if isinstance(t, ast.Attribute) and norm(t.value) == 'self':
-            defs.setdefault(t.attr, []).append(st)
-    shape = [
-        ('clm_start_altitude', 0, 'mission.origin_position.altitude + 3000.0 * FEET_TO_METERS', None),
-        ('clm_start_altitude', 1, 'mission.origin_position.altitude', 'self.clm_start_altitude >= ac_performance.maximum_altitude'),
-        ('des_end_altitude', 0, 'mission.destination_position.altitude + 3000.0 * FEET_TO_METERS', None),
-        ('des_end_altitude', 1, 'ac_performance.maximum_altitude', 'self.des_end_altitude >= ac_performance.maximum_altitude'),
-        ('des_start_altitude', 0, 'self.crz_start_altitude', None),
-        ('crz_start_altitude', 1, 'self.clm_start_altitude', 'self.crz_start_altitude < self.clm_start_altitude'),
-        ('crz_start_altitude', 2, 'ac_performance.maximum_altitude', 'self.crz_start_altitude > ac_performance.maximum_altitude'),
-    ]
-    for attr, i, val, guard in shape:
-        sts = sorted(defs.get(attr, []), key=lambda s: s.lineno)
-        if len(sts) <= i:
-            ctx.ob('C02-R6', ini, f'{attr} definition #{i}', False, 'definition missing', line=ini.node.lineno)
-            continue
-        st = sts[i]
-        v = norm(st.value).replace('3000 *', '3000.0 *')
-        gs = [norm(t) for t, pol, _ in guards_of(st) if pol]
-        ok = v == val and (guard is None and not gs or guard in gs)
-        ctx.ob('C02-R6', ini, f'self.{attr} = {v}' + (f' if {gs}' if gs else ''), ok,
-               'documented altitude schedule' if ok else f'expected `{val}`' + (f' under `{guard}`' if guard else ''),
-               line=st.lineno)
-    ia = [k for k in (sup[0].stmt.value.keywords if sup else []) if k.arg == 'initial_altitude']
-    ok = bool(ia) and norm(ia[0].value) == 'self.clm_start_altitude'
-    ctx.ob('C02-R6', ini, 'trajectory starts at the climb start altitude', ok,
-           'initial_altitude=self.clm_start_altitude' if ok else 'initial altitude is not the climb start altitude',
-           nontrivial=False)
+    eng = Engine(prog, inline=lambda fi: fi.file == ini.file)         # its own helpers, not the base constructor
+    names = ['self', 'builder', 'ac_performance', 'mission', 'starting_mass']
+    try:
+        outs = eng.run(ini, self_cls=ini.cls, args={p: nm(n) for p, n in zip(ini.params, names)})
+    except Undecided as ex:
+        ctx.undecided('C02-R6', ini, '__init__', str(ex))
+    from ..algebra import module_constants
+    units = module_constants(prog.module('units.py'))
+    consts = {k: float(v) for k, v in module_constants(lm, extra=units).items()}     # incl. named constants of the module
+    fields = ('clm_start_altitude', 'crz_start_altitude', 'des_start_altitude', 'des_end_altitude')
+    for what, o, d, ceil in SCHEDULE_MISSIONS:
+        def atom(n, o=o, d=d, ceil=ceil):
+            if isinstance(n, ast.Attribute):
+                t = canon(n)
+                if t == 'mission.origin_position.altitude':
+                    return o
+                if t == 'mission.destination_position.altitude':
+                    return d
+                if t == 'ac_performance.maximum_altitude':
+                    return ceil
+            if isinstance(n, ast.Name) and n.id in consts:
+                return consts[n.id]
+            return NotImplemented
+        taken = []
+        for kind, v, st in outs:
+            ok = True
+            for cond, pol in st.pc:
+                try:
+                    if bool(ceval(cond, {}, atom)) != pol:
+                        ok = False
+                        break
+                except Unknown:
+                    continue
+                except Exception:
+                    continue
+            if ok:
+                taken.append((kind, v, st))
+        if not taken:
+            ctx.undecided('C02-R6', ini, what, 'no path through the context constructor is taken for this mission')
+        want = _reference_schedule(o, d, ceil, consts.get('FEET_TO_METERS', 0.3048))
+        problems = []
+        line = ini.node.lineno
+        for kind, v, st in taken:
+            completed = [e for e in st.events if e.kind == 'call' and e.name == '.__init__']
+            if want is None:
+                if kind != 'raise':
+                    problems.append('the mission is accepted although its climb start lies above the cruise level or its descent '
+                                    'would end above it')
+                elif completed:
+                    problems.append('the mission is refused only after the context has been completed')
+                continue
+            if kind == 'raise':
+                problems.append(f'a flyable mission is refused: {canon(v)[:60]}')
+                line = st.events[-1].line if st.events else line
+                continue
+            for f in fields:
+                hv = st.heap.get(f'self.{f}')
+                if hv is None:
+                    problems.append(f'self.{f} is not set')
+                    continue
+                try:
+                    got = float(ceval(hv, {}, atom))
+                except Exception:
+                    ctx.undecided('C02-R6', ini, canon(hv)[:80], f'cannot evaluate self.{f} for this mission')
+                if abs(got - want[f]) > 1e-6:
+                    problems.append(f'self.{f} = {canon(hv)[:50]} gives {got:.1f} m, the documented schedule gives {want[f]:.1f} m')
+                    ev = [e for e in st.events if e.kind == 'store' and canon(e.target) == f'self.{f}']
+                    line = ev[-1].line if ev else line
+            if not completed:
+                problems.append('the base context is not initialised')
+            else:
+                e = completed[-1]
+                ia = e.kwargs.get('initial_altitude') or (e.args[4] if len(e.args) > 4 else None)
+                try:
+                    got = float(ceval(ia, {}, atom)) if ia is not None else None
+                except Exception:
+                    got = None
+                if got is None or abs(got - want['clm_start_altitude']) > 1e-6:
+                    problems.append('the trajectory does not start at the climb start altitude')
+        sched = 'refused' if want is None else ', '.join(f'{k.split("_alt")[0]}={v:.0f}' for k, v in want.items())
+        ctx.ob('C02-R6', ini, f'mission with {what} (origin {o:.0f} m, destination {d:.0f} m, ceiling {ceil:.0f} m): {sched}', not problems,
+               'the constructor\'s own path for this mission gives the documented schedule' if not problems else problems[0], line=line)
 
-    # R8
-    lc = lm.func('LegacyBuilder._fly_level_change')
-    da = single_def_value(lc.node, 'delta_altitude')
-    alt = [st for t, st, how in stores_to(lc.node) if norm(t) == 'pt.altitude']
-    loop = next((n for n in walk_no_nested(lc.node) if isinstance(n, ast.For) and any(a is n for s in alt for a in ancestors(s))), None)
-    ok = False
-    why = 'altitude schedule shape not recognised'
-    if da is not None and len(alt) == 1 and loop is not None and isinstance(loop.iter, ast.Call) \
-            and call_name(loop.iter) == 'range' and len(loop.iter.args) == 1:
-        n_expr = loop.iter.args[0]
-        ivar = norm(loop.target)
-        last = ast.BinOp(left=n_expr, op=ast.Sub(), right=ast.Constant(1))
-        env = {ivar: last, 'delta_altitude': da}
-        try:
-            lhs = normal_form(alt[0].value, env)
-            rhs = normal_form(ast.Name('end_altitude', ast.Load()), {})
-            ok = poly_equal(lhs, rhs)
-            why = ('with i = n_points − 1: start + i·(end − start)/(n_points − 1) ≡ end_altitude' if ok else
-                   f'last point altitude normalises to {lhs}, not end_altitude')
-        except Exception as e:  # unknown operator: undecided
-            ctx.undecided('C02-R8', lc, norm(alt[0]), f'cannot normalise: {e}')
-        # the last iteration must append and stop
-        brk = [n for n in walk_no_nested(loop) if isinstance(n, ast.If) and norm(n.test) in (
-            f'{ivar} == {norm(n_expr)} - 1',) and any(isinstance(s, ast.Break) for s in n.body)
-            and any('traj.append' in norm(s) for s in n.body)]
-        ok = ok and bool(brk)
-        if not brk and ok is False and 'normalises' not in why:
-            why = 'last point is not appended before leaving the loop'
-    ctx.ob('C02-R8', lc, 'altitude schedule ends exactly at the target level', ok, why,
-           line=(alt[0].lineno if alt else lc.node.lineno))
-    calls = {'LegacyBuilder.fly_climb': ('self.clm_start_altitude', 'self.crz_start_altitude', 'FlightPhase.CLIMB', 'SimpleFlightRules.CLIMB'),
-             'LegacyBuilder.fly_descent': ('self.des_start_altitude', 'self.des_end_altitude', 'FlightPhase.DESCENT', 'SimpleFlightRules.DESCEND')}
-    for qn, (s, e, ph, rl) in calls.items():
-        fi = lm.func(qn)
-        cs = [c for c in calls_in(fi.node) if call_name(c) == 'self._fly_level_change']
-        ok = len(cs) == 1 and len(cs[0].args) == 6 and norm(cs[0].args[4]) == s and norm(cs[0].args[5]) == e \
-            and norm(cs[0].args[1]) == ph and norm(cs[0].args[2]) == rl
-        ctx.ob('C02-R8', fi, f'level change from {s} to {e} under {rl}', ok,
-               'phase flown between its own altitudes with its own flight rule' if ok else
-               'phase is flown between the wrong altitudes or with the wrong performance rule',
-               line=(cs[0].lineno if cs else fi.node.lineno))
-    cz = lm.func('LegacyBuilder.fly_cruise')
-    a = [st for t, st, how in stores_to(cz.node) if norm(t) == 'pt.altitude']
-    ok = len(a) == 1 and norm(a[0].value) == 'self.crz_start_altitude' and not any(isinstance(x, (ast.For, ast.While)) for x in ancestors(a[0]))
-    ctx.ob('C02-R8', cz, 'cruise altitude constant at the cruise level', ok,
-           'set once before the cruise loop' if ok else 'cruise altitude varies or is not the cruise level',
-           line=(a[0].lineno if a else cz.node.lineno))
+
+def _view_of_field(e, key_ok=None):
+    """K when e is the stored-points view `self._data[K][: self._size]` of field K (key_ok(K) may restrict K)"""
+    if isinstance(e, ast.Subscript) and _is_view_slice(e) and isinstance(e.value, ast.Subscript) and _is_table(e.value.value):
+        return e.value.slice
+    return None
 
 
 def rule_resample(ctx):
-    """R9: time resampling interpolates each per-point field against the
-    trajectory's own flight-time axis (np.interp(x=new times, xp=own times,
-    fp=field view)), copies per-trajectory fields, and sizes the result by the
-    new time vector."""
+    """R9, decided on the values that flow (symbolic execution of Trajectory.interpolate_time, closures and helpers
+    inlined): every value stored into the field table of the returned trajectory is, according to the dimensions of
+    the field,  np.interp(x = the new times as given, xp = the stored-points view of this trajectory's own
+    flight_time, fp = the stored-points view of the same field / the entry of the same species of the same field,
+    NaN outside)  or a deep copy of the same field; the result is a Trajectory sized by the new time vector with the
+    same field sets."""
+    from .c06 import Engine, Sym, Undecided, canon, is_sym, _taken, _name as nm
     prog = ctx.prog
     fi = prog.func(TRAJ, 'Trajectory.interpolate_time')
-    ot = single_def_value(fi.node, 'orig_time')
-    ok = ot is not None and norm(ot) == "self._data['flight_time'][:self._size]"
-    ctx.ob('C02-R9', fi, f'abscissa = {norm(ot) if ot is not None else "?"}', ok,
-           'the stored flight times' if ok else 'resampling abscissa is not the view of the flight_time field')
-    calls = [c for c in calls_in(fi.node) if call_name(c) in ('np.interp', 'numpy.interp')]
-    ctx.floor('C02-R9', len(calls), 2, 'np.interp calls in interpolate_time')
-    for c in calls:
-        a = [norm(x) for x in c.args[:3]]
-        ok = len(a) == 3 and a[0] == fi.params[1] and a[1] == 'orig_time' and a[2].startswith('self._data[name]')
-        ctx.ob('C02-R9', fi, f'np.interp({", ".join(a)})', ok, 'x = new times, xp = own times, fp = the field' if ok else
-               'interpolation arguments are permuted or refer to another array', line=c.lineno)
-        edge = {k.arg: norm(k.value) for k in c.keywords}
-        ok = edge == {'left': 'np.nan', 'right': 'np.nan'}
-        ctx.ob('C02-R9', fi, f'outside the flown interval: {edge}', ok, 'NaN, not an extrapolated value' if ok else
-               'times outside the trajectory are extrapolated/clamped', line=c.lineno, nontrivial=False)
-    nt = single_def_value(fi.node, 'new_traj')
-    ok = nt is not None and norm(nt) == f'Trajectory(len({fi.params[1]}), fieldsets=list(self._fieldsets))'
-    ctx.ob('C02-R9', fi, 'result sized by the new time vector, same field sets', ok, norm(nt) if ok else 'result container changed')
-    cp = [st for t, st, how in stores_to(fi.node) if norm(t) == 'new_traj._data[name]' and isinstance(getattr(st, 'value', None), ast.Call)
-          and call_name(st.value) == 'deepcopy']
-    ok = len(cp) == 1 and norm(cp[0].value) == 'deepcopy(self._data[name])'
-    ctx.ob('C02-R9', fi, 'per-trajectory fields copied unchanged', ok, 'deepcopy' if ok else 'per-trajectory fields are not carried over', nontrivial=False)
+    eng = Engine(prog)
+    tparam = fi.params[1]
+    try:
+        outs = eng.run(fi, self_cls=fi.cls, args={tparam: nm('new_time')})
+    except Undecided as ex:
+        ctx.undecided('C02-R9', fi, fi.name, str(ex))
+    rets = [(v, st) for k, v, st in outs if k == 'return']
+    if not rets:
+        ctx.undecided('C02-R9', fi, fi.name, 'no returning path')
+
+    # ---- the result object
+    news = {}
+    for v, st in rets:
+        news[canon(v)] = v
+    ok = len(news) == 1 and isinstance(v, ast.Call) and isinstance(v.func, ast.Name) and v.func.id == fi.cls.name
+    NEW = next(iter(news.values()))
+    if not ok:
+        ctx.ob('C02-R9', fi, f'returns {sorted(news)[0][:60]}', False, 'the resampled trajectory is not a new Trajectory built here')
+        return
+    n_arg = NEW.args[0] if NEW.args else next((k.value for k in NEW.keywords if k.arg in ('npoints', 'size', 'n')), None)
+    fs = next((k.value for k in NEW.keywords if k.arg == 'fieldsets'), None)
+    fs_core = fs
+    while isinstance(fs_core, ast.Call) and canon(fs_core.func) in ('list', 'tuple', 'set', 'sorted', 'copy', 'deepcopy') and fs_core.args:
+        fs_core = fs_core.args[0]
+    ok = n_arg is not None and canon(n_arg) in ('len(new_time)', 'new_time.shape[0]', 'new_time.size', 'np.size(new_time)') \
+        and fs_core is not None and canon(fs_core) == 'self._fieldsets'
+    ctx.ob('C02-R9', fi, 'result sized by the new time vector, same field sets', ok, canon(NEW)[:80] if ok else
+           f'result container changed: {canon(NEW)[:80]}')
+    NEWT = canon(NEW)
+
+    # ---- the stores into the result, per kind of field
+    def describe(kind, V, K, st, line):
+        """(ok, why) for a value V stored under key K of the result"""
+        kt = canon(K)
+        if kind == 'copy':
+            core = V
+            if isinstance(core, ast.Call) and canon(core.func) in ('deepcopy', 'copy.deepcopy') and len(core.args) == 1:
+                src = core.args[0]
+            elif isinstance(core, ast.Call) and isinstance(core.func, ast.Attribute) and core.func.attr in ('copy', '__deepcopy__'):
+                src = core.func.value
+            else:
+                return False, f'a per-trajectory field is stored as `{canon(V)[:50]}`, not as a copy of the field'
+            if isinstance(src, ast.Subscript) and _is_table(src.value) and canon(src.slice) == kt:
+                return True, 'deep copy of the same field'
+            return False, f'field {kt} receives a copy of `{canon(src)[:40]}`'
+        # an interpolation
+        return interp_ok(V, K, kind, st)
+
+    def interp_ok(V, K, kind, st, sp=None):
+        kt = canon(K)
+        if not (isinstance(V, ast.Call) and canon(V.func) in ('np.interp', 'numpy.interp')):
+            return False, f'a per-point field is stored as `{canon(V)[:60]}`, not as the linear interpolation of the field in time'
+        a = {n: v for n, v in zip(('x', 'xp', 'fp', 'left', 'right', 'period'), V.args)}
+        a.update({k.arg: k.value for k in V.keywords if k.arg})
+        if canon(a.get('x')) != 'new_time':
+            return False, f'interpolated at `{canon(a.get("x"))[:40]}`, not at the new times as given'
+        xk = _view_of_field(a.get('xp'))
+        if xk is None or canon(xk) != "'flight_time'":
+            return False, (f'abscissa is `{canon(a.get("xp"))[:60]}`, not the stored-points view of this trajectory\'s own flight_time: '
+                           'resampling at the trajectory\'s own times no longer gives back the stored values')
+        fp = a.get('fp')
+        if kind == 'point':
+            fk = _view_of_field(fp)
+            if fk is None or canon(fk) != kt:
+                return False, (f'field {kt} is interpolated from `{canon(fp)[:60]}`, not from the stored-points view of the same field: '
+                               'the values at the trajectory\'s own times change')
+        else:
+            okf = isinstance(fp, ast.Subscript) and isinstance(fp.value, ast.Subscript) and _is_table(fp.value.value) \
+                and canon(fp.value.slice) == kt and (sp is None or canon(fp.slice) == canon(sp))
+            if not okf:
+                return False, f'species values of {kt} are interpolated from `{canon(fp)[:60]}`'
+        for edge in ('left', 'right'):
+            if a.get(edge) is None or canon(a.get(edge)) not in ('np.nan', 'numpy.nan', 'math.nan', "float('nan')"):
+                return False, (f'{edge}={canon(a.get(edge)) if a.get(edge) is not None else "(default)"}: times outside the flown '
+                               'interval are answered with the end value instead of NaN')
+        if a.get('period') is not None:
+            return False, 'periodic interpolation'
+        return True, 'x = new times, xp = own times, fp = the same field, NaN outside'
+
+    kinds = {'point': ({'POINT'}, 'per-point field'), 'species': ({'POINT', 'SPECIES'}, 'per-point species field'),
+             'copy': (set(), 'per-trajectory field'), 'copy2': ({'SPECIES'}, 'per-trajectory species field')}
+    stores = []
+    for v, st in rets:
+        for e in st.events:
+            if e.kind == 'store' and isinstance(e.target, ast.Subscript) and isinstance(e.target.value, ast.Attribute) \
+                    and e.target.value.attr == '_data' and canon(e.target.value.value) == NEWT:
+                stores.append((e, st))
+    seen = set()
+    n_interp = 0
+    for kname, (dims, what) in kinds.items():
+        def atom(n, dims=dims):
+            if isinstance(n, ast.Attribute) and n.attr == 'dimensions':
+                return frozenset(Sym('Dimension.' + d) for d in dims)
+            return NotImplemented
+        taken = []
+        for e, st in stores:
+            tk = _taken(e.pc, atom, lambda n: isinstance(n, ast.Attribute) and n.attr == 'dimensions')
+            if tk is False:
+                continue
+            taken.append((e, st, tk))
+        kind = 'copy' if kname.startswith('copy') else kname
+        if not taken:
+            ctx.ob('C02-R9', fi, f'{what} carried over', False, f'a {what} present in the trajectory is not written to the result')
+            continue
+        for e, st, tk in taken:
+            K, V = e.target.slice, e.value
+            key = (kname, canon(K), canon(V))
+            if key in seen:
+                continue
+            seen.add(key)
+            if kind == 'species' and not (isinstance(V, ast.Call) and canon(V.func) in ('np.interp', 'numpy.interp')):
+                # a container filled per species: by element stores, or built from a {species: value} comprehension
+                parts = []          # (species key, iterated source, value)
+                for x in st.events:
+                    if x.kind == 'store' and isinstance(x.target, ast.Subscript) and canon(x.target.value) == canon(V):
+                        sp = x.target.slice
+                        src = sp.args[0] if is_sym(sp, '_each') else (sp.value.args[0] if isinstance(sp, ast.Subscript) and is_sym(sp.value, '_each') else None)
+                        parts.append((sp, src, x.value))
+                comp = next((a for a in (V.args if isinstance(V, ast.Call) else []) if isinstance(a, ast.DictComp)), None)
+                if comp is not None and len(comp.generators) == 1 and not comp.generators[0].ifs:
+                    g = comp.generators[0]
+                    val = comp.value
+                    if isinstance(g.target, (ast.Tuple, ast.List)) and len(g.target.elts) == 2 and isinstance(g.iter, ast.Call) \
+                            and isinstance(g.iter.func, ast.Attribute) and g.iter.func.attr == 'items' and all(isinstance(z, ast.Name) for z in g.target.elts):
+                        kn, vn = g.target.elts[0].id, g.target.elts[1].id
+                        m = g.iter.func.value
+
+                        class S(ast.NodeTransformer):
+                            def visit_Name(self, n):
+                                if n.id == vn:
+                                    return ast.Subscript(value=m, slice=ast.Name(id=kn, ctx=ast.Load()), ctx=ast.Load())
+                                return n
+                        from .c06 import clone
+                        val = S().visit(clone(val))
+                    parts.append((comp.key, g.iter, val))
+                if not parts:
+                    ok, why = False, f'species field stored as `{canon(V)[:50]}` without per-species interpolation'
+                else:
+                    ok, why = True, ''
+                    for sp, src, xval in parts:
+                        base = f'self._data[{canon(K)}]'
+                        src_ok = src is not None and canon(src) in (f'{base}.keys()', base, f'list({base}.keys())', f'{base}.items()',
+                                                                    f'list({base})', f'sorted({base})', f'list({base}.items())')
+                        o, w = interp_ok(xval, K, 'species', st, sp)
+                        n_interp += 1
+                        if not src_ok and o:
+                            o, w = False, f'species loop runs over `{canon(sp)[:50]}`, not over the species of the same field'
+                        if not o:
+                            ok, why = o, w
+                    why = why or 'every species of the same field interpolated against the own times'
+            else:
+                ok, why = describe(kind, V, K, st, e.line)
+                n_interp += kind != 'copy'
+            if tk is None and not ok:
+                ctx.undecided('C02-R9', fi, canon(V)[:80], 'cannot relate the branch to the dimensions of the field')
+            ctx.ob('C02-R9', fi, f'{what}: result[{canon(K)[:30]}] = {canon(V)[:60]}', ok, why, line=e.line,
+                   nontrivial=(kind != 'copy'))
+    ctx.floor('C02-R9', n_interp, 2, 'interpolations of per-point fields in interpolate_time')
 
 
 def run(ctx):
     rule_resample(ctx)
     rule_buffers(ctx)
-    rule_bookkeeping(ctx)
+    rule_flight(ctx)
     rule_schedule(ctx)
     # R10: a state outside the performance envelope is refused (the no-extrapolation rule of C06)
     from .c06 import rule_no_extrapolation
